@@ -5,6 +5,7 @@
 -/
 import SPProofs.Comb.Radix
 import Mathlib.Data.List.Perm.Basic
+import Mathlib.Data.List.Nodup
 
 namespace SPModel.Comb
 
